@@ -25,9 +25,12 @@ def assert_repo_cirq():
         sys.exit(EXIT_INCONCLUSIVE)
 
 
-def run_concrete(ob, model, body=None):
+def run_concrete(ob, model, body=None, auto_fill=None):
     """run an obligation body in concrete mode (real numpy, no shims). Returns (failures, cx, exc)."""
-    cx = ConcreteCtx(model, ob.opts)
+    opts = dict(ob.opts)
+    if auto_fill:
+        opts['auto_fill'] = auto_fill
+    cx = ConcreteCtx(model, opts)
     C.set_cur(cx)
     exc = None
     try:
@@ -134,9 +137,12 @@ def run_check(pid, tier, modname, stub_modules, level_text, assumptions, bounds,
     n_points = 0
     for ob in obs:
         pts = []
-        for env in ob.points:
-            fails, cx, exc = run_concrete(ob, env)
+        for pi, env in enumerate(ob.points):
+            fails, cx, exc = run_concrete(ob, env, auto_fill=f'{seed}:{pi}')
             n_points += 1
+            env = dict(env)
+            for n_, v_ in cx.vars.items():
+                env.setdefault(n_, v_['value'])
             if exc == 'infeasible' or (exc and exc.startswith('expected:')):
                 continue
             if fails:
